@@ -45,8 +45,13 @@ class MolGen:
         params = Chem.SmilesParserParams()
         params.removeHs = True
         mol = Chem.MolFromSmiles(smiles, params.removeHs)
-        AllChem.EmbedMolecule(mol)
-        AllChem.UFFOptimizeMolecule(mol, maxIters=200000)
+        # Embedding draws from RDKit's own random numbers and fails now and then for some fragments.
+        # A fixed seed keeps the generation independent of that; 2D coordinates are the fallback,
+        # because attaching fragments requires a conformer.
+        if AllChem.EmbedMolecule(mol, randomSeed=42) < 0:
+            AllChem.Compute2DCoords(mol)
+        else:
+            AllChem.UFFOptimizeMolecule(mol, maxIters=200000)
         rdFP = _RDKGEN.GetFingerprint(mol)
         self.graph.add_node(0, smiles=smiles, big_smiles=str(token), rdFP=rdFP)
         for bd in self.bond_descriptors:
